@@ -319,6 +319,12 @@ func TestC11(t *testing.T) {
 				}
 			}
 		}
+		// symbol-lookup histories over more symbols than the reader's symbol cache has slots
+		for si, n := range vt.Pick([]int{1500}, []int{1100, 1500, 2600}) {
+			desc := map[string]any{"kind": "abs", "n": n, "pos": "mid", "wseed": 0}
+			yield(vt.Case{"src": "symhist", "world": desc, "k": 32, "lazy": si%2 == 1, "name": "", "W": []string{}, "absn": 0, "absW": []int{}})
+			yield(vt.Case{"src": "symhist", "world": desc, "k": 1, "lazy": si%2 == 0, "name": "", "W": []string{}, "absn": 0, "absW": []int{}})
+		}
 		// crash points of the index-header writer: every prefix of the header file (sampled in quick)
 		{
 			desc := map[string]any{"kind": "abs", "n": 7, "pos": "mid", "wseed": 0}
@@ -467,6 +473,42 @@ func TestC11(t *testing.T) {
 		}
 		if err != nil {
 			ev["goterr"] = "open: " + err.Error()
+			return ev
+		}
+		if vt.Str(c["src"]) == "symhist" {
+			// a HISTORY of symbol lookups on one reader over an index with more symbols than the reader's
+			// 1024-slot direct-mapped symbol cache: every symbol, every symbol again in reverse order, then
+			// (o, o+k*1024, o+k*1024, o) for refs that share a cache slot; judged like the symbols of a meta case
+			ev["kind"] = "meta"
+			var all []string
+			it := w.idx.Symbols()
+			for it.Next() {
+				all = append(all, it.At())
+			}
+			var hist []int
+			for i := range all {
+				hist = append(hist, i)
+			}
+			for i := len(all) - 1; i >= 0; i-- {
+				hist = append(hist, i)
+			}
+			for o := 0; o < len(all); o += 5 {
+				for k := 1; o+k*1024 < len(all); k++ {
+					hist = append(hist, o, o+k*1024, o+k*1024, o)
+				}
+			}
+			sref, sgot := make([]string, 0, len(hist)), make([]string, 0, len(hist))
+			for _, i := range hist {
+				sref = append(sref, all[i])
+				s, err := r.LookupSymbol(ctx, uint32(i))
+				if err != nil {
+					s = "!error: " + err.Error()
+				}
+				sgot = append(sgot, string(append([]byte(nil), s...)))
+			}
+			_, err = r.LookupSymbol(ctx, uint32(len(all)))
+			ev["sym_beyond_err"] = err != nil
+			ev["syms_ref"], ev["syms_got"] = sref, sgot
 			return ev
 		}
 		if src := vt.Str(c["src"]); src == "meta" || src == "crash" {
